@@ -1,0 +1,77 @@
+//go:build verif
+
+package tls
+
+// Accessor for the /verif monitors (property C01): gives an external package
+// access to the unexported unmarshal method of every handshake message type and
+// of both session-state encodings. No behaviour, no assertions.
+
+// VerifParseKinds is the number of kinds VerifUnmarshalHandshakeMessage accepts (0 … VerifParseKinds-1).
+const VerifParseKinds = 22
+
+// VerifParseKindName names a kind.
+func VerifParseKindName(kind int) string {
+	names := [...]string{
+		"clientHello", "serverHello", "encryptedExtensions", "endOfEarlyData", "keyUpdate",
+		"newSessionTicketTLS13", "certificateRequestTLS13", "certificate", "certificateTLS13",
+		"serverKeyExchange", "certificateStatus", "serverHelloDone", "clientKeyExchange", "finished",
+		"certificateRequest", "certificateRequest+sigalg", "certificateVerify", "certificateVerify+sigalg",
+		"newSessionTicket", "helloRequest", "sessionState", "sessionStateTLS13",
+	}
+	if kind < 0 || kind >= len(names) {
+		return "?"
+	}
+	return names[kind]
+}
+
+// VerifUnmarshalHandshakeMessage feeds data to the unmarshal method of a fresh
+// message of the given kind and returns its result.
+func VerifUnmarshalHandshakeMessage(kind int, data []byte) bool {
+	switch kind {
+	case 0:
+		return new(clientHelloMsg).unmarshal(data)
+	case 1:
+		return new(serverHelloMsg).unmarshal(data)
+	case 2:
+		return new(encryptedExtensionsMsg).unmarshal(data)
+	case 3:
+		return new(endOfEarlyDataMsg).unmarshal(data)
+	case 4:
+		return new(keyUpdateMsg).unmarshal(data)
+	case 5:
+		return new(newSessionTicketMsgTLS13).unmarshal(data)
+	case 6:
+		return new(certificateRequestMsgTLS13).unmarshal(data)
+	case 7:
+		return new(certificateMsg).unmarshal(data)
+	case 8:
+		return new(certificateMsgTLS13).unmarshal(data)
+	case 9:
+		return new(serverKeyExchangeMsg).unmarshal(data)
+	case 10:
+		return new(certificateStatusMsg).unmarshal(data)
+	case 11:
+		return new(serverHelloDoneMsg).unmarshal(data)
+	case 12:
+		return new(clientKeyExchangeMsg).unmarshal(data)
+	case 13:
+		return new(finishedMsg).unmarshal(data)
+	case 14:
+		return (&certificateRequestMsg{}).unmarshal(data)
+	case 15:
+		return (&certificateRequestMsg{hasSignatureAlgorithm: true}).unmarshal(data)
+	case 16:
+		return (&certificateVerifyMsg{}).unmarshal(data)
+	case 17:
+		return (&certificateVerifyMsg{hasSignatureAlgorithm: true}).unmarshal(data)
+	case 18:
+		return new(newSessionTicketMsg).unmarshal(data)
+	case 19:
+		return new(helloRequestMsg).unmarshal(data)
+	case 20:
+		return new(sessionState).unmarshal(data)
+	case 21:
+		return new(sessionStateTLS13).unmarshal(data)
+	}
+	return false
+}
